@@ -152,6 +152,7 @@ PROP = Property(
     ),
     streams=[
         Stream("grammar", check, strategy=case_st(), quick=14000, thorough=300000),
+        Stream("midflight", check, strategy=C.midflight_case(PROFILE, ["max_attempts", "deadline", "per_class", "max_unknown"], C.RECONF_ENTRIES), quick=3000, thorough=60000),
         Stream("breaker_events", check_breaker_events, strategy=breaker_case(), quick=5000, thorough=100000),
     ],
 )
